@@ -75,6 +75,23 @@ struct CountingReader {
   }
 };
 
+// std::streambuf that makes its data available a few bytes at a time (like a pipe or a socket):
+// sgetn()/read() refill through underflow(), readsome() only sees the current chunk
+struct ChunkedBuf : std::streambuf {
+  std::string data;
+  size_t pos = 0, chunk;
+  ChunkedBuf(const std::string& d, size_t chunk_) : data(d), chunk(chunk_ ? chunk_ : 1) { setg(nullptr, nullptr, nullptr); }
+  int_type underflow() override {
+    if (pos >= data.size()) return traits_type::eof();
+    size_t n = data.size() - pos < chunk ? data.size() - pos : chunk;
+    char* b = &data[pos];
+    setg(b, b, b + n);
+    pos += n;
+    return traits_type::to_int_type(*gptr());
+  }
+  size_t consumed() const { return pos - (size_t)(egptr() - gptr()); }
+};
+
 enum Kind {
   K_CSTR = 0,     // const char*, zero terminated
   K_MUT_CSTR,     // char*, zero terminated
@@ -86,11 +103,12 @@ enum Kind {
   K_ISTREAM,
   K_READER,       // custom reader
   K_VARIANT,      // variant of another document holding the text (zero terminated semantics)
+  K_ISTREAM_CHUNKED,  // std::istream over a streambuf that refills 3 bytes at a time
   K_COUNT
 };
 inline const char* kind_name(int k) {
   static const char* n[] = {"const char*", "char*", "(char*,size)", "(uchar*,size)", "(void*,size)", "std::string",
-                            "string_view", "istream", "custom reader", "variant"};
+                            "string_view", "istream", "custom reader", "variant", "istream(chunked)"};
   return k >= 0 && k < K_COUNT ? n[k] : "?";
 }
 inline bool kind_zero_terminated(int k) { return k == K_CSTR || k == K_MUT_CSTR || k == K_VARIANT; }
@@ -144,6 +162,11 @@ DeserializationError feed(int kind, const std::string& bytes, Call&& call, Count
       last = r;
       if (reader_out) *reader_out = r;
       return call(*r);
+    }
+    case K_ISTREAM_CHUNKED: {
+      ChunkedBuf buf(bytes, 3);
+      std::istream is(&buf);
+      return call(is);
     }
     case K_VARIANT: {
       // linked string: not subject to the configured maximum string length; exact block for ASan
